@@ -323,9 +323,11 @@ End clauses.
 (* ---- C13 ---- *)
 Lemma after_stop ops ts : no_stop ops → after (ops ++ [(OStop, ts)]) = (do_stop (after ops)).1.1.
 Proof.
-  intros Hns. pose proof (run_refines ops sess0 WF_sess0 Hns) as (_ & _ & _ & Hnh & Hlen).
-  unfold after. rewrite (srun_app ops sess0 [(OStop, ts)] Hnh Hlen). cbn [srun sstep].
-  unfold do_stop. destruct (fold_left stop_one _ _) as [s1 cs]. cbn.
+  intros Hns. pose proof (run_refines ops sess0 WF_sess0 Hns) as (_ & _ & Hwf & Hnh & Hlen).
+  assert (HG : G (after ops)) by (by apply (run_G ops sess0 WF_sess0 G_sess0 Hns)).
+  pose proof (stop_G _ HG (any_locked_WF _ Hwf)) as (_ & _ & _ & _ & _ & _ & _ & Hok).
+  unfold after in *. rewrite (srun_app ops sess0 [(OStop, ts)] Hnh Hlen). cbn [srun sstep].
+  destruct (do_stop (final sess0 (srun sess0 ops))) as [[s1 r] cs]. cbn in Hok. subst r. cbn.
   unfold final. by rewrite last_snoc.
 Qed.
 
@@ -369,23 +371,33 @@ Lemma c13_stop ops ts : no_stop ops →
   (∀ e c, (e, c) ∈ released s' → e ∈ bound_ever s' → bound_cause c).
 Proof.
   intros Hns. cbn zeta. rewrite (after_stop _ _ Hns).
-  assert (HG : G (after ops)) by (apply reach_G; by exists ops).
-  destruct (stop_G _ HG) as (HG' & Hnb & Hbe & Hall & _).
+  assert (Hr : reach (after ops)) by (by exists ops).
+  destruct (stop_G _ (reach_G _ Hr) (any_locked_WF _ (reach_WF _ Hr))) as (HG' & Hnb & Hbe & Hall & _).
   split_and!; try done.
   - by apply G_nodup.
   - by apply G_bad.
   - intros e c. by apply G_causes.
 Qed.
 
-(* Stop while a stat / wstat / read / write is inside its file-system call *)
-Lemma c13_stop_inflight s o ts f :
-  reach s → op_simple_fid o = Some f →
-  let s3 := (inflight_stop s o ts).2.1.1 in
-  NoDup (rel s3) ∧ (∀ f' e, ¬ B s3 f' e) ∧
-  (∀ e, e ∈ bound_ever s3 → e ∈ rel s3) ∧ bad_use s3 = [] ∧
-  bound_ever s3 = bound_ever (sstep s o ts).1.1.
+(* Stop returns, empties the table (every fid can be used again) and hands out no entry *)
+Lemma stop_empties s ts s' r cs :
+  reach s → sstep s OStop ts = (s', r, cs) → r = ROk 0 ∧ abs s' = Spec ∅ (next s).
 Proof.
-  intros Hr Hf. cbn zeta.
-  destruct (inflight_stop_G s o ts f (reach_WF _ Hr) (reach_G _ Hr) Hf) as (HG & Hnb & Hbe & Hall).
+  intros Hr Hst. cbn [sstep] in Hst.
+  destruct (stop_G _ (reach_G _ Hr) (any_locked_WF _ (reach_WF _ Hr))) as (_ & _ & _ & _ & _ & Hemp & Hn & Hok).
+  rewrite Hst in *. cbn in *. split; [done|]. unfold abs. by rewrite Hemp, Hn, omap_empty.
+Qed.
+
+(* Stop called while an operation is inside the file system: Stop waits for it *)
+Lemma c13_stop_inflight s o ts :
+  reach s → is_stop o = false →
+  let s3 := (inflight_stop s o ts).2.1.1 in
+  NoDup (rel s3) ∧ (∀ f' e, ¬ B s3 f' e) ∧ refs s3 = ∅ ∧
+  (∀ e, e ∈ bound_ever s3 → e ∈ rel s3) ∧ bad_use s3 = [] ∧
+  bound_ever s3 = bound_ever (sstep s o ts).1.1 ∧
+  (inflight_stop s o ts).2.1.2 = ROk 0 ∧ (inflight_stop s o ts).1.1.2 ≠ RHang.
+Proof.
+  intros Hr Ho. cbn zeta.
+  destruct (inflight_stop_G s o ts (reach_WF _ Hr) (reach_G _ Hr) Ho) as (HG & Hnb & Hemp & Hbe & Hall & Hok & Hnh).
   split_and!; try done; [by apply G_nodup|by apply G_bad].
 Qed.
